@@ -207,7 +207,17 @@ func (fr *Frame) load(st *State, ptr []string, t types.Type) []string {
 
 func (fr *Frame) store(st *State, ptr []string, t types.Type, v []string) {
 	if !fr.l().flatOK(t) {
-		fr.vc.unmodelled["store of large array value in "+fr.fn.String()] = true
+		// large array value: contents not tracked; the whole target row becomes unknown (over-approximation)
+		fr.vc.unmodelled["contents of large array values are not tracked ("+fr.fn.String()+")"] = true
+		ss := fr.bigElemSorts(t)
+		if ss == nil {
+			fr.vc.havocAll(st, nil)
+			return
+		}
+		for _, s := range ss {
+			row := fr.vc.freshRaw("row_"+string(s), "(Array Int "+string(s)+")")
+			fr.vc.setRow(st, s, ptr[0], row)
+		}
 		return
 	}
 	lay := fr.l().layout(t)
@@ -721,13 +731,33 @@ func (fr *Frame) definedOutside(v ssa.Value, li *loopInfo) bool {
 	return false
 }
 
-func (fr *Frame) addWrite(ws *writeSet, li *loopInfo, addr ssa.Value, t types.Type) {
+// bigElemSorts: component sorts of the elements of a large array type (nil if unknown)
+func (fr *Frame) bigElemSorts(t types.Type) []Sort {
+	for {
+		arr, ok := t.Underlying().(*types.Array)
+		if !ok {
+			break
+		}
+		t = arr.Elem()
+	}
 	if !fr.l().flatOK(t) {
-		ws.all = true
-		return
+		return nil
+	}
+	return uniqSorts(fr.l().layout(t))
+}
+
+func (fr *Frame) addWrite(ws *writeSet, li *loopInfo, addr ssa.Value, t types.Type) {
+	var lay []Sort
+	if !fr.l().flatOK(t) {
+		lay = fr.bigElemSorts(t)
+		if lay == nil {
+			ws.all = true
+			return
+		}
+	} else {
+		lay = fr.l().layout(t)
 	}
 	root := fr.rootOf(addr)
-	lay := fr.l().layout(t)
 	if fr.definedOutside(root, li) {
 		if _, ok := fr.regs[root]; ok || isConstLike(root) {
 			ref := fr.val(root)[0]
